@@ -57,6 +57,22 @@ def collision_family():
             doc2 = {"definitions": {"T": dict(_obj({m: {"type": "integer"}}, [m]), additionalProperties={"type": "string"})}}
             out.append({"id": "member_flat[%s]%s" % (m, "#b" if builder else ""), "doc": doc2, "target": "T", "shape": "member-name-flat", "ctx": "def", "family": "collision",
                         "settings": {"struct_builder": builder}})
+    # names that meet WITHOUT two definition keys being alike: the root's title and a key; the invented name of an in-line member type
+    # (Foo.bar -> FooBar, Foo.bar[] -> FooBarItem, an untagged variant's name) and a key
+    zz = _obj({"zz9": {"type": "boolean"}})
+    inl = _obj({"x": {"type": "integer"}})
+    meets = {
+        "root_title~key": {"title": "FooBar", "type": "object", "properties": {"a": {"type": "integer"}}, "definitions": {"foo_bar": zz}},
+        "root_title~key_late": {"title": "FooBar", "type": "object", "properties": {"a": {"$ref": "#/definitions/foo_bar"}}, "definitions": {"foo_bar": zz, "Aaa": inl}},
+        "member_inline~key": {"definitions": {"Foo": _obj({"bar": inl}), "foo_bar": zz}},
+        "member_inline~key_before": {"definitions": {"Foo": _obj({"bar": inl}), "FOO-BAR": zz, "Aaa": _obj({"f": {"$ref": "#/definitions/Foo"}})}},
+        "items_inline~key": {"definitions": {"Foo": _obj({"bar": {"type": "array", "items": inl}}), "foo_bar_item": zz}},
+        "variant_inline~key": {"definitions": {"Foo": {"oneOf": [inl, {"type": "array", "items": {"type": "integer"}}]}, "foo_variant0": zz}},
+        "member_enum_inline~key": {"definitions": {"Foo": _obj({"bar": {"type": "string", "enum": ["a", "b"]}}), "foo_bar": zz}},
+    }
+    for mn, doc in meets.items():
+        out.append({"id": "meet[%s]" % mn, "doc": doc, "target": None, "shape": "meet:" + mn.split("~")[0], "ctx": "root" if "title" in doc else "defs", "family": "collision",
+                    "sup": False})   # an error naming the clash is a correct answer; two items of one name are not
     # bespoke default functions are named <type>_<member>: Foo.bar_baz and FooBar.baz meet
     en = {"type": "string", "enum": ["a", "b"]}
     for (t1, m1, t2, m2) in (("Foo", "bar_baz", "FooBar", "baz"), ("A", "b_c", "AB", "c")):
